@@ -31,7 +31,7 @@ CASE_TIMEOUT = 300
 WALL = {"quick": 1200, "thorough": 10800}
 REQUIRED = {"faults_injected": 150, "faults_before_flush": 120, "faults_after_flush": 2, "stage_boundary_faults": 30,
             "line_points_enumerated": 80, "success_runs_checked": 3, "programs": 3,
-            "cli_killed": 10, "queue_checks_before_serialisation": 100}
+            "cli_killed": 10, "queue_checks_before_serialisation": 100, "faults_without_previous_file": 60}
 NCHUNK = 8
 
 
@@ -85,7 +85,7 @@ def make_input(prog, idx, workdir, rng):
             kw = dict(name="P", inpath=[d / "in.ff"], lib=None, seq=None, seq_file=d / "s.txt")
         else:
             kw = dict(name="PEO", inpath=[], lib=["martini3"], seq=["PEO:6"], seq_file=None)
-        return (lambda outpath: gen_params(outpath=outpath, **kw)), "out.itp"
+        return (lambda outpath: gen_params(outpath=outpath, **kw)), ["polymer.itp", "out.itp", "x.p.itp", "tip.itp"][idx % 4]
     if prog == "gen_coords":
         from polyply import gen_coords
         top = ["[ defaults ]", "1 2 no 1.0 1.0", "[ atomtypes ]", "A 36.0 0.0 A 0.47 3.5", "[ moleculetype ]", "M 1", "[ atoms ]",
@@ -102,14 +102,14 @@ def make_input(prog, idx, workdir, rng):
             (d / "in.gro").write_text("x\n1\n    1RA       X    1   1.000   1.000   1.000\n   5.00000   5.00000   5.00000\n")
             kw["coordpath"] = d / "in.gro"
             kw.pop("box")
-        return (lambda outpath: gen_coords(outpath=outpath, **kw)), "out.gro"
+        return (lambda outpath: gen_coords(outpath=outpath, **kw)), ["polymer.gro", "out.gro", "cargo.gro", "run.2.gro"][idx % 4]
     from polyply import gen_seq
     if idx == 0:
         kw = dict(name="s", seq=["A", "B"], macro_strings=["A:3:1:PEO-1.0", "B:2:2:PS-1.0"], connects=["0:1:2-0"],
                   modifications=["0:OHter"], tags=["1:chiral:R-1.0"])
     else:
         kw = dict(name="s", seq=["A"], macro_strings=["A:4:1:PEO-1.0"], connects=[], modifications=[], tags=[])
-    return (lambda outpath: gen_seq(outpath=outpath, **kw)), "out.json"
+    return (lambda outpath: gen_seq(outpath=outpath, **kw)), ["seq.json", "out.json"][idx % 2]
 
 
 # ----------------------------------------------------------------------------- monitors
@@ -295,10 +295,10 @@ def other_fs_tmpdir(workdir):
     return None
 
 
-CLI = {"gen_params": (["gen_params", "-f", "in.ff", "-seq", "RA:6", "-name", "P", "-o", "out.itp"], "out.itp"),
-       "gen_coords": (["gen_coords", "-p", "s.top", "-o", "out.gro", "-name", "x", "-box", "5", "5", "5"], "out.gro"),
+CLI = {"gen_params": (["gen_params", "-f", "in.ff", "-seq", "RA:6", "-name", "P", "-o", "polymer.itp"], "polymer.itp"),
+       "gen_coords": (["gen_coords", "-p", "s.top", "-o", "polymer.gro", "-name", "x", "-box", "5", "5", "5"], "polymer.gro"),
        "gen_seq": (["gen_seq", "-name", "s", "-from_string", "A:6:1:PEO-1.0", "B:3:2:PS-1.0", "-seq", "A", "B", "-connects",
-                    "0:1:5-0", "-o", "out.json"], "out.json")}
+                    "0:1:5-0", "-o", "seq.json"], "seq.json")}
 
 
 def run_kill(cid, rng, workdir, res):
@@ -455,6 +455,10 @@ def run_case(cid, rng, workdir):
         for pt in mine:
             kind, name, line, occ, phase_seen, stage_seen = pt
             d = fresh_outdir(workdir, fname, "f")
+            noprev = (points.index(pt) % 2 == 1)
+            if noprev:
+                os.remove(os.path.join(d, fname))          # no file at the output path yet
+                bump(res, "faults_without_previous_file")
             before = fs_snapshot(d)
             reset_state(os.path.join(d, fname))
             STATE["armed"] = (kind, name, line, occ)
@@ -527,7 +531,8 @@ def run_case(cid, rng, workdir):
                 if after != before:
                     changed = sorted(set(after) ^ set(before)) + [k for k in after if k in before and after[k] != before[k]]
                     what = "created" if set(after) - set(before) else ("removed" if set(before) - set(after) else
-                                                                       ("truncated" if after[fname][2] < before[fname][2] else "modified"))
+                                                                       ("truncated" if fname in after and fname in before and
+                                                                        after[fname][2] < before[fname][2] else "modified"))
                     violation(res, "%s:output-%s-on-failure-before-writing" % (prog, what),
                               "fault at %s (stage %s): directory changed: %s" % (pt[:4], fired["stage"], changed), w)
             elif fired["phase"] == "after":
@@ -536,7 +541,7 @@ def run_case(cid, rng, workdir):
                 if not ok:
                     violation(res, "%s:output-incomplete-after-flush" % prog, "fault after the flush at %s: output missing or "
                               "incomplete" % (pt[:4],), w)
-                if prog != "gen_seq" and ("#%s.1#" % fname) not in after:
+                if prog != "gen_seq" and not noprev and ("#%s.1#" % fname) not in after:
                     violation(res, "%s:previous-file-not-backed-up" % prog, "fault after the flush at %s: no backup of the previous "
                               "file (%s)" % (pt[:4], sorted(after)), w)
             else:
